@@ -103,6 +103,7 @@ type Path struct {
 	obligs      []*Oblig
 	keptUnknown int
 	inInit      bool
+	writes      int
 	onceDone    map[*Value]bool
 	pools       map[*Value][]Value
 	fmtCalls    int
@@ -1005,7 +1006,7 @@ func solveByComponents(ss *SolverSet, asserts []*Term, allVars []*Term, to int, 
 	return out
 }
 
-var sampleStrings = []string{"a", "b", "c", "d", "x", "y", "p", "q", "", "\n", "a\nb", "\"", "`", "\\", "a/d", "b/d", "c/d", "/d", "/go", " ", "1", "a1", "//", "/*", "*/", "\xff", "\x00"}
+var sampleStrings = []string{"a", "b", "c", "d", "x", "y", "p", "q", "", "\n", "a\nb", "\"", "`", "\\", "a/d", "b/d", "c/d", "/d", "/go", " ", "1", "a1", "a\r\nb", "math/rand/v2", "//", "/*", "*/", "\xff", "\x00"}
 var sampleInts = func() []string {
 	out := []string{"0", "1", "2", "3", "255", "-1", "65", "128", "1000000"}
 	for _, f := range []float64{1, -1, 1.5, -0.5, 100, 1e6, -1e6, -2.5e6, 1e20, -1e20, 1e21, 1e-7, -1e-7, 123456789, -123456789} {
